@@ -167,7 +167,13 @@ def one_case(ctx, res, i, reqs, impls):
             key = U.localise(creds.auth.method, creds.priv.key, engine_id)
             ks = VS.keystream(key, engine_id, m["boots"], m["time"], m["priv_params"], len(m["ciphertext"]))
             plain = bytes(x ^ y for x, y in zip(m["ciphertext"], ks))
-            sc = B.dec_scoped_tlv(plain)
+            try:
+                sc = B.dec_scoped_tlv(plain)
+            except B.BerError:
+                # not decipherable under the privacy key localised to the DISCOVERED engine id
+                res.violate("e2e-emit", case, "msgData deciphers to a scoped PDU under the user's privacy key localised to the discovered engine id", "garbage",
+                            "the encrypted payload of the emitted request cannot be deciphered by the agent it is addressed to", {"kind": "emit", "what": "undecipherable"})
+                return
         pdu = sc["pdu"]
         want = {"version": 3, "msg_id": rid, "flags": flags, "security_model": 3, "engine_id": engine_id, "boots": agent.v3.boots, "time": agent.v3.clock(), "user": user,
                 "ctx_engine": ctx_engine or engine_id, "ctx_name": ctx_name, "type": kind, "request_id": rid, "a": a, "b": b, "varbinds": [(o, v) for o, v in vbs],
